@@ -118,3 +118,10 @@ add("C13", "fault enumeration: invalid records x every chunk/position, iterator 
     "each: BadInputError for invalid input, destination not recognised/listed, all neighbour digests, the listing and "
     "foreign objects unchanged. Faults planned but not delivered make the case inconclusive.",
     "DESIGN.md section 4 C13", level="fault_enumeration")
+add("C15", "inode-like FileModel replayed alongside random operation histories; raw digests, HDF5 object addresses and recognition probes after every step",
+    "Random histories of create(a|w)/cp/mv/ln/ln -s/external link/cp --overwrite/re-create/cp-onto-occupied over two "
+    "files (API and CLI, URIs with and without leading slash) are executed on real files while a small model tracks "
+    "names -> objects -> content; after every step the listing, each path's raw content digest, object-address "
+    "sharing of hard links vs copies, is_cooler on collection / foreign / dataset / missing-group / missing-file / "
+    "non-HDF5 paths, `cooler ls`, and unrelated attributes/groups/datasets are compared with the model.",
+    "DESIGN.md section 4 C15")
